@@ -128,6 +128,24 @@ pub fn c20(out: &mut Vec<String>, rng: &mut Rng, tier: &str) {
             }
         }
     }
+    // short ascending samples spanning several decades (the last term dominates the running total: the register
+    // holds a full ulp of compensation), then further accumulation after the round trip
+    for i in 0..(if tier == "thorough" { 1500 } else { 240 }) {
+        let n = 2 + i % 4;
+        let conf = crate::gen::rand_conf(rng);
+        let mut v = 0.01 + rng.unit();
+        let mut toks: Vec<String> = vec!["E".into()];
+        for _ in 0..n {
+            toks.push("a".into());
+            toks.push(crate::prog_ops::fenc_pub::<f64>(v));
+            v *= 3.0 + 30.0 * rng.unit();
+        }
+        match i % 3 {
+            0 => out.push(ser_state_toks::<f64, Arithmetic<f64>>("arith", conf, rng, toks)),
+            1 => out.push(ser_state_toks::<f64, Geometric<f64>>("geo", conf, rng, toks)),
+            _ => out.push(ser_state_toks::<f64, Harmonic<f64>>("harm", conf, rng, toks)),
+        }
+    }
     // states standing for 2^31 .. 2^33 observations, reached by repeated `s + s`
     for doublings in [31usize, 32, 33] {
         let conf = crate::gen::rand_conf(rng);
